@@ -32,7 +32,7 @@ var c12Blocks = map[string][]string{
 	"accB":      {"set B a x", "bal B 5"},
 	"snaprev":   {"set A a y", "snap", "set A ab x", "del A a", "rev 0"},
 	"binkey":    {"set A BIN1 x"},
-	"binkey2":   {"set A BIN2 y", "set A BIN1 y"},
+	"binkey2":   {"set A BIN2 y", "set A BIN1 y", "set A a y"}, // text and binary keys of one account in one block
 }
 
 var c12Order = []string{"create", "over", "del", "empty", "create2", "delcreate", "readadd", "addfresh", "code1", "code2", "balnon", "bal0", "touch", "emptyval", "accB", "snaprev", "binkey", "binkey2"}
